@@ -93,6 +93,9 @@ func exprPrec(e *Expr) int {
 func renderExpr(e *Expr, pol ParenPolicy, l *Layout) string {
 	switch e.K {
 	case ENum:
+		if e.S != "" {
+			return e.S
+		}
 		if e.N < 0 || (e.N == 0 && 1/e.N < 0) {
 			return "-" + fmtNum(-e.N)
 		}
